@@ -49,7 +49,7 @@ func (blt *CachedLivenessTester) Init(conf *Config) error {
 			return fmt.Errorf("unable to parse cacheExpirationNonLive: %s", err)
 		}
 
-		if conf.CacheCapacity != 0 {
+		if conf.CacheCapacityNonLive != 0 {
 			blt.ipCacheNonLive = newLRUCache(convertedTime, conf.CacheCapacityNonLive)
 
 		} else {
